@@ -1936,6 +1936,8 @@ def surface():
             if not f.endswith(".rs") or f == "verif_shim.rs":
                 continue
             rel = os.path.relpath(os.path.join(root, f), SRC)
+            if "tests" in rel.split(os.sep)[:-1] or f == "tests.rs":
+                continue       # `#[cfg(test)] mod tests` directories
             txt = strip_comments(open(os.path.join(root, f)).read())
             # test modules are not part of the crate's surface
             tm = re.search(r"#\[cfg\(test\)\]", txt)
@@ -1976,6 +1978,17 @@ def surface():
                     elif depth == 0:
                         fns.append(mm.group(1))
                 out.append((rel, name, fns))
+            # free functions of the file (brace depth 0)
+            free, depth = [], 0
+            for mm in re.finditer(r"[{}]|\bfn\s+(\w+)", txt):
+                if mm.group(0) == "{":
+                    depth += 1
+                elif mm.group(0) == "}":
+                    depth -= 1
+                elif depth == 0:
+                    free.append(mm.group(1))
+            if free:
+                out.append((rel, "fn " + rel, free))
             # the derives of every type
             for m in re.finditer(r"((?:#\[[^\]]*\]\s*)*)(?:pub(?:\([a-z]+\))?\s+)?(struct|enum)\s+(\w+)", txt):
                 ders = []
@@ -1986,7 +1999,7 @@ def surface():
 
 
 def split_hdr(n):
-    for k in ("trait", "struct", "enum"):
+    for k in ("trait", "struct", "enum", "fn"):
         if n.startswith(k + " "):
             return (k, n[len(k) + 1:])
     if " for " in n:
